@@ -176,6 +176,88 @@ theorem C20_radix_no_panic (r : Radix) (s : List Nat) : parseNumRadix r s ≠ .e
       rw [parse_valid r _ (by simp) hb]
       split <;> (intro h; cases h)
 
+/-- **C20 parseInt.** `std.parseInt`: an optional leading `-` (nothing else: `+`, blanks and
+    non-ASCII digits are invalid), then ASCII digits.  No digits → `Empty`; the first
+    character that is not an ASCII digit → `InvalidDigit` of it; otherwise the decimal value
+    `Σ dᵢ·10ⁱ` rounded once to the nearest double (the rounding itself is
+    `str::parse::<f64>`, trusted to be correct), negated after `-`, or `Overflow`. -/
+theorem C20_parseInt (digits : List Nat) (neg : Bool) (hd : ∀ c ∈ digits, IsDec c) :
+    let sign := if neg then [45] else []
+    (digits = [] → parseInt (sign ++ digits) = .error .empty) ∧
+    (digits ≠ [] → parseInt (sign ++ digits) =
+      if roundNE (valOf 10 (digits.map (· - 48))) ≤ maxFinite
+        then .ok (neg, roundNE (valOf 10 (digits.map (· - 48)))) else .error .overflow) ∧
+    (∀ c post, ¬ IsDec c → (c = 45 → neg = true ∨ digits ≠ []) →
+      parseInt (sign ++ digits ++ c :: post) = .error (.invalidDigit c)) := by
+  intro sign
+  have hhead : ∀ rest : List Nat, (neg = false → ∀ x, rest.head? = some x → x ≠ 45) →
+      parseInt (sign ++ rest) = (let sub := rest
+        if sub.isEmpty then .error .empty
+        else match firstNonDigit sub with
+          | some c => .error (.invalidDigit c)
+          | none => if roundNE (decValue sub) ≤ maxFinite then .ok (neg, roundNE (decValue sub))
+              else .error .overflow) := by
+    intro rest hr
+    cases neg with
+    | true =>
+      show parseInt (45 :: rest) = _
+      unfold parseInt
+      simp
+      split
+      · rfl
+      · cases firstNonDigit rest <;> rfl
+    | false =>
+      show parseInt rest = _
+      unfold parseInt
+      have : (rest.head? == some 45) = false := by
+        cases rest with
+        | nil => rfl
+        | cons x xs =>
+          have := hr rfl x rfl
+          simp [this]
+      simp [this]
+      split
+      · rfl
+      · cases firstNonDigit rest <;> rfl
+  refine ⟨?_, ?_, ?_⟩
+  · intro h; subst h
+    rw [hhead [] (by intro _ x hx; cases hx)]
+    rfl
+  · intro hne
+    have hh : neg = false → ∀ x, digits.head? = some x → x ≠ 45 := by
+      intro _ x hx
+      have := hd x (List.mem_of_mem_head? hx)
+      unfold IsDec at this; omega
+    rw [hhead digits hh]
+    have : digits.isEmpty = false := by cases digits <;> simp_all
+    simp only [this, Bool.false_eq_true, if_false, firstNonDigit_none hd, decValue_eq]
+  · intro c post hc h45
+    have hh : neg = false → ∀ x, (digits ++ c :: post).head? = some x → x ≠ 45 := by
+      intro hneg x hx
+      cases hdg : digits with
+      | nil =>
+        rw [hdg] at hx
+        simp only [List.nil_append, List.head?_cons, Option.some.injEq] at hx
+        subst hx
+        intro h
+        rcases h45 h with hn | hn
+        · rw [hneg] at hn; cases hn
+        · exact hn hdg
+      | cons y ys =>
+        rw [hdg] at hx
+        simp only [List.cons_append, List.head?_cons, Option.some.injEq] at hx
+        subst hx
+        have := hd y (by rw [hdg]; simp)
+        unfold IsDec at this; omega
+    rw [List.append_assoc, hhead _ hh]
+    have : (digits ++ c :: post).isEmpty = false := by cases digits <;> simp
+    simp only [this, Bool.false_eq_true, if_false, firstNonDigit_split hd hc]
+
+example : parseInt ("-0".toList.map Char.toNat) = .ok (true, 0) := by decide +kernel
+example : parseInt ("+1".toList.map Char.toNat) = .error (.invalidDigit 43) := by decide +kernel
+example : parseInt ("9007199254740993".toList.map Char.toNat) = .ok (false, 9007199254740992) := by
+  decide +kernel
+
 /-! Non-vacuity: a 34-digit hex string whose 133rd bit decides the rounding
     (`0x8000000000000400…01`, the F10 input): the sticky digit makes it round up. -/
 example : AllDigits .hex ("800000000000040000000000000000001".toList.map Char.toNat) := by
@@ -206,6 +288,13 @@ theorem C20_utf8_roundtrip (s : List Nat) (hs : ∀ c ∈ s, Scalar c) :
 theorem C20_decode_lossy_spec (bs : List Nat) :
     LossySpec bs (decodeLossy bs) ∧ ∀ c ∈ decodeLossy bs, Scalar c :=
   ⟨decodeLossyFuel_spec _ bs (Nat.le_refl _), decodeLossyFuel_scalar _ bs⟩
+
+/-- **C20 decode_lossy_unique.** The specification is functional: whatever answer satisfies
+    `LossySpec` for an input is the decoder's answer.  Together with
+    `C20_decode_lossy_spec`: `std.decodeUTF8` computes *the* U+FFFD-per-maximal-subpart
+    decoding. -/
+theorem C20_decode_lossy_unique (bs out : List Nat) (h : LossySpec bs out) : decodeLossy bs = out :=
+  lossySpec_unique h _ (Nat.le_refl _)
 
 /-- The encoder produces bytes. -/
 theorem C20_utf8_encode_bytes (s : List Nat) (hs : ∀ c ∈ s, Scalar c) : Bytes (encodeUtf8 s) := by
@@ -361,3 +450,7 @@ open Rsj.Codec in
 #print axioms C20_parseJson_no_duplicate_keys
 open Rsj.Codec in
 #print axioms C20_parseJson_exact_partial
+open Rsj.Codec in
+#print axioms C20_parseInt
+open Rsj.Codec in
+#print axioms C20_decode_lossy_unique
